@@ -30,9 +30,13 @@ def gen_case(rng):
         r = rng.random()
         if r < 0.6:
             s["comps"].append(("sparql", [SG.gen_sparql_constraint(rng, is_prop) for _ in range(rng.randint(1, 2))]))
+            for sc in s["comps"][-1][1]:
+                # a second ontology binds the same prefix to another namespace: each query uses the declarations it points to
+                sc["alt_ns"] = rng.random() < 0.2
         if r > 0.4:
             cc = SG.gen_custom(rng, i, iri_nodes + lits + [Literal("x")])
             cc["on_prop"] = is_prop
+            cc["alt_ns"] = rng.random() < 0.2
             if cc["kind"] == "select" and cc.get("needs_prop") and not is_prop:
                 cc["query"], cc["needs_prop"] = SG.CSELECTS[1]
             if not is_prop and rng.random() < 0.12:
